@@ -83,6 +83,7 @@ type Ctx struct {
 	readerSide map[*ssa.Function]bool
 	canon      *canonTable
 	retBusy    map[*ssa.Function]bool
+	factOf    map[string]Fact
 	factDepth  int
 }
 
